@@ -747,6 +747,24 @@ pub fn ctors(out: &str) {
         o.emit(&json!({"key": format!("ctor/FXPair/{}{}", a, b), "op":"ctor", "fn":"FXPair::try_new", "a": a, "b": b, "la": a.len(), "lb": b.len(), "same": a.to_lowercase() == b.to_lowercase(),
                        "o": match &res { Outcome::Ok(Ok(_)) => "ok", Outcome::Ok(Err(_)) => "err", Outcome::Panic(_) => "panic" }}));
     }
+    // the ASSERTING constructors `Dual::clone_from` / `Dual2::clone_from` (a plain value, not a Result: a wrong shape is
+    // refused by aborting): every (names, gradient length, rows, columns) combination up to 3, including mis-shaped
+    // second-order arrays with the RIGHT number of entries (1 x 4 for two names)
+    for nv in 0..=3usize {
+        let names: Vec<String> = (0..nv).map(|i| format!("x{}", i)).collect();
+        let donor = Dual::new(1.0, names.clone());
+        let donor2 = Dual2::new(1.0, names.clone());
+        for nd in 0..=3usize {
+            let res = guard(|| Dual::clone_from(&donor, 2.0, ndarray::Array1::from_vec(vec![0.5; nd])));
+            o.emit(&json!({"key": format!("ctor/Dual::clone_from/{}/{}", nv, nd), "op":"ctor", "fn":"Dual::clone_from", "nvars": nv, "nd": nd,
+                           "o": match &res { Outcome::Ok(_) => "ok", Outcome::Panic(_) => "panic" }}));
+            for (rows, cols) in [(0usize, 0usize), (1, 1), (2, 2), (3, 3), (1, 4), (4, 1), (1, 9), (9, 1), (2, 3), (3, 2), (1, 2), (2, 1)] {
+                let res = guard(|| Dual2::clone_from(&donor2, 2.0, ndarray::Array1::from_vec(vec![0.5; nd]), ndarray::Array2::from_elem((rows, cols), 0.25)));
+                o.emit(&json!({"key": format!("ctor/Dual2::clone_from/{}/{}/{}x{}", nv, nd, rows, cols), "op":"ctor", "fn":"Dual2::clone_from", "nvars": nv, "nd": nd, "rows": rows, "cols": cols,
+                               "o": match &res { Outcome::Ok(_) => "ok", Outcome::Panic(_) => "panic" }}));
+            }
+        }
+    }
     // the quote constructor builds the pair itself: the same grid through `FXRate::try_new` and through the Python-facing `FXRate(...)`
     for (a, b) in [("usd", "eur"), ("usd", "usd"), ("USD", "usd"), ("us", "eur"), ("usd", "euro"), ("eur", "EUR"), ("Gbp", "gBP")] {
         for via in ["FXRate::try_new", "FXRate.__new__"] {
